@@ -482,6 +482,7 @@ func init() {
 		Trusted: []string{},
 		Body: func(c *fw.Ctx) {
 			run := func(label string, cfg []string, x string) {
+				c.CurCase(func() *fw.Case { return &fw.Case{Kind: "c17", Cfg: cfg, S: fw.Strs(x)} })
 				c.Eval()
 				f, ok := c17Eval(cfg, x)
 				if ok {
@@ -596,6 +597,10 @@ func init() {
 							profs = append(append([][]string{}, allProfiles...), stdProfiles...)
 						}
 						for _, cfg := range profs {
+							cf0, nn0, kk0 := cfg, names, ks
+							c.CurCase(func() *fw.Case {
+								return &fw.Case{Kind: "c18", Cfg: cf0, S: fw.Strs(append([]string{plain}, nn0...)...), N: append([]int{}, kk0...)}
+							})
 							c.Eval()
 							f, ok := c18Eval(cfg, plain, names, ks)
 							if ok && f == nil {
